@@ -198,7 +198,7 @@ Proof. split; vm_compute; reflexivity. Qed.
 
 (** InnerRingCandidateRemove: [append(key, []byte("delete")...)] *)
 Lemma tie_delete_suffix :
-  delete_suffix = bytes_of_string (nth 0 p_neofs_InnerRingCandidateRemove_strlits "").
+  delete_suffix = bytes_of_string (nth 0 p_neofs_InnerRingCandidateRemove_strlits EmptyString).
 Proof. vm_compute. reflexivity. Qed.
 
 (* NOT TIED: the event names "Deposit" / "Withdraw" / "Cheque" / "Bind" /
